@@ -2,7 +2,7 @@
 // SPDX-License-Identifier: BSD-3-Clause
 
 use idlc_codegen_c::globals::emit_struct;
-use idlc_codegen_c::types::{change_const_primitive, change_primitive};
+use idlc_codegen_c::types::{change_primitive, const_expression};
 use idlc_mir::Node;
 
 use crate::interface::{emit_interface_impl, emit_interface_invoke};
@@ -24,11 +24,10 @@ impl idlc_codegen::SplitInvokeGenerator for Generator {
                 Node::Const(c) => {
                     let ident = c.ident.to_string();
                     let cnt_ty = change_primitive(c.r#type);
-                    let ty = change_const_primitive(c.r#type);
-                    let value = &c.value;
+                    let value = const_expression(c.r#type, &c.value);
 
                     result.push_str(&format!(
-                        "static const {cnt_ty} {ident} = {ty}({value});\n\n"
+                        "static const {cnt_ty} {ident} = {value};\n\n"
                     ));
                 }
                 Node::Struct(s) => {
